@@ -7,7 +7,7 @@ import vlib
 def pipe(mode):
     def run_cases(ctx, verdict, cases, name="geomops"):
         obs = vlib.run_driver(ctx, "geomops", cases)
-        viols = vlib.model_b(ctx, "GeomOpsObs", "Obs.cfg", obs, env={"MODE": mode}, name="GeomOpsObs/" + mode)
+        viols = vlib.model_b(ctx, "GeomOpsObs", "Obs.cfg", obs, env={"MODE": mode}, name="GeomOpsObs/" + mode, timeout=3600)
         for idx, v in viols:
             verdict.add(name, v["sig"], cases[idx], dict(step=v["step"], obs_step=(
                 obs[idx].get("steps") or [None])[max(0, v["step"] - 1)] if v["step"] else obs[idx].get("ev")))
@@ -40,7 +40,7 @@ def explore(ctx, verdict, mode, cfg, timeout=1500):
     out, r = vlib.model_a(ctx, "MCGeomOps", cfg, ["EDGE"], timeout=timeout)
     cases = out["EDGE"]
     cases.sort(key=lambda c: vlib.digest(c))
-    rh = random_histories(ctx, cases, 3000 if ctx.quick else 40000, 6, 14)
+    rh = random_histories(ctx, cases, 3000 if ctx.quick else 20000, 6, 14)
     ctx.coverage_extra["random_histories"] = dict(count=len(rh), length="6..14")
     cases = cases + rh
     # vacuity guard: every kind, layout and action of the configuration occurs in the replayed behaviours
